@@ -137,8 +137,8 @@ func cmdC03(r *RNG, n int, e *Emitter, args []string) {
 	for i := 0; i < n; i++ {
 		s, c := genHostilePaths(r), genHostilePaths(r)
 		open := genHostilePaths(r)
-		ct := clip.ClipType(r.Intn(7))  // includes NoClip and out-of-range values
-		fr := clip.FillRule(r.Intn(6))  // includes out-of-range values
+		ct := clip.ClipType(r.Intn(7)) // includes NoClip and out-of-range values
+		fr := clip.FillRule(r.Intn(6)) // includes out-of-range values
 		prec := []int{-9, -8, -3, 0, 2, 8, 9, 12}[r.Intn(8)]
 		delta := []float64{0, 0.3, -0.3, 1, -1, 2.5, -2.5, 10, -10, 1e4, -1e4, 1e7}[r.Intn(12)]
 		jt := clip.JoinType(r.Intn(5))
